@@ -6,6 +6,8 @@ mod memory;
 pub use memory::InMemoryStorage;
 
 mod secondary;
+#[cfg(feature = "verif")]
+pub use secondary::verif;
 pub use secondary::{SecondaryStorage, StorageOptions as SecondaryStorageOptions};
 
 mod index;
